@@ -548,7 +548,13 @@ def _run(plan):
                 # dict holding a scale does); must be as independent as copy()
                 import copy as _copy
 
-                new_scale = _copy.deepcopy(target)
+                try:
+                    new_scale = _copy.deepcopy(target)
+                except Exception:
+                    # copy.deepcopy() is not labella's API: a scale that refuses it
+                    # loudly is duplicated with its own copy() instead
+                    new_scale = target.copy()
+                    bump("probe:deepcopy_refused_copy_used")
                 pool.append(new_scale)
                 family.append(family[op[1]])
                 generation.append(generation[op[1]] + 1)
@@ -666,7 +672,7 @@ def _run(plan):
             bump("probe:pool_size_5")
         v = None
         if outcome.startswith("raise") and kind in ("domain", "range", "range_reuse", "clamp", "nice", "copy", "new",
-                                                    "chain", "interp", "domain_from", "range_from", "deepcopy",
+                                                    "chain", "interp", "domain_from", "range_from",
                                                     "copy_chain", "nudge"):
             # a documented call on documented arguments must not raise ... unless
             # the scale is degenerate (division by zero is outside the property)
